@@ -1086,9 +1086,14 @@ pub fn plan(property: &'static str, tier: &str) -> Plan {
     }
     // the same with two workers: dispatches routed to the lingering worker are parked for its replacement, and a
     // shrink that covers its slot arrives before its death is reported
-    if property == "C13" || thorough {
+    if property == "C13" || property == "C14" || thorough {
         for r in [Routing::KeyPersistent, Routing::RoundRobin, Routing::Sticky] {
-            cfgs.push((Cfg { routing: r, discard: Discard::None, workers: 2, depth: if thorough { 5 } else { 4 }, ttl: false, lean: true, burst: false, queue: QueueKind::Default, set_limit: false, flow_only: false, fine_deaths: false, script: None, slow_stops: true, late_handler: false, dynamic_to: None }, 0));
+            if property == "C14" && !thorough && r != Routing::Sticky {
+                continue;
+            }
+            // (C14's recorded finding needs five events)
+            let depth = if thorough || property == "C14" { 5 } else { 4 };
+            cfgs.push((Cfg { routing: r, discard: Discard::None, workers: 2, depth, ttl: false, lean: true, burst: false, queue: QueueKind::Default, set_limit: false, flow_only: false, fine_deaths: false, script: None, slow_stops: true, late_handler: false, dynamic_to: None }, 0));
         }
     }
     // the discard limit changes under way (UpdateSettings)
